@@ -1,10 +1,11 @@
 """C04 — PCR and PTS/DTS codecs: exact layout, round trip, reserved/marker bits ignored, both PTS decoders agree.
 ops: pcr.rt old v -> [0 [old' [0 ExtractPCR(old')]]] ; pts.rt old v -> [0 [old' gots.ExtractTime(old') pes.ExtractTime(old')]] ;
      pcr.get b, pts.get b, pes.time b (decoders on arbitrary bytes); pcr.put / pts.put (encoders alone)."""
+import vlib
 from vlib import Case, hx, unhx, parse_val
 
 PROP = "C04"
-PROOF_FILES = ["Properties/C04.v"]
+PROOF_FILES = ["Properties/C04.v", "Properties/C04e2e.v"]
 PCR_MAX = (1 << 33) * 300
 PTS_MAX = 1 << 33
 RULE = ("PCR values 0, 2^k, 2^k+-1 (every k), base 2^k+-1 x ext {0,1,127,128,255,256,257,298,299}, every slice boundary, range ends, "
@@ -85,6 +86,10 @@ def pts_values(rng, tier):
 
 
 def gen(rng, tier):
+    return _gen_own(rng, tier) + _gen_e2e_af(rng, tier)
+
+
+def _gen_own(rng, tier):
     out = []
     for v in pcr_values(rng, tier):
         for old in priors(rng, 6):
@@ -128,6 +133,19 @@ def gen(rng, tier):
         v = rng.choice((rng.randrange(PTS_MAX, 1 << 64), (1 << 64) - 1 - rng.randrange(1000), PTS_MAX + rng.randrange(1000)))
         out.append(Case("pts.rt %s %d" % (hx(old), v), kind="fidelity-u64", decides=False, nontrivial=False))
     return out
+
+
+BORROWS = ["C03"]
+
+
+def _gen_e2e_af(rng, tier):
+    """end-to-end clause "a PCR or OPCR set on an adaptation field is read back unchanged": the adaptation-field edit
+    histories of C03 (same op af.hist, judged by C03's oracle) that call SetPCR / SetOPCR"""
+    import random as _r
+    import gen.c03 as c03
+    sub = _r.Random(rng.randrange(1 << 62))
+    keep = lambda c: c.decides and (" [ 8 " in c.line or " [ 9 " in c.line)
+    return vlib.borrow(c03, c03.gen(sub, tier), "e2e-af", keep=keep, theorem="C03_pcr_roundtrip / C03 readback")
 
 
 def oracle(c, real, model):
